@@ -32,7 +32,7 @@ var c09Tree = reg("C09", "c09-tree", checkC09)
 var c09Bad = reg("C09", "c09-malformed", checkC09Bad)
 
 func xmlCfg() xmodel.GenCfg {
-	return xmodel.GenCfg{MaxDepth: 4, MaxKids: 4, MaxTop: 2, XMLSafe: true, XMLEverywhere: true, Undeclare: true, Wide: true,
+	return xmodel.GenCfg{MaxDepth: 4, MaxKids: 4, MaxTop: 2, XMLSafe: true, XMLEverywhere: true, Undeclare: true, Wide: true, AllowBig: thorough(),
 		Names:  []string{"a", "b", "c", "a-b", "a.b", "a1", "é", "_u", "child", "div"},
 		Values: []string{"1", "2", "abc", "x y", " lead", "trail ", "<&>", "a\"b", "a'b", "é€", "𝄞", "]]>", "&amp;", "\t", "line\nbreak", "10", "жук", "ÿþ", "naïve", "Türkçe", "αβγ", "łódź", "þð"}}
 }
@@ -427,6 +427,12 @@ func TestC09(t *testing.T) {
 			lt := allIndexes(text, "<")
 			i := lt[rapid.IntRange(0, len(lt)-1).Draw(t, "which")]
 			c.Bytes, c.How = []byte(text[:i]+"<"+text[i:]), "doubled '<'"
+		}
+		// a mutation that happens to leave a document the harness's own strict
+		// reader accepts (balanced, no syntax error) is not malformed: not judged
+		if ev2, err := xmlBytesToEvents(c.Bytes); err == nil && nestingBalanced(ev2) {
+			st.Discard("mutation-still-well-formed")
+			return
 		}
 		st.Eval(1)
 		st.Class(c.How)
